@@ -3,11 +3,13 @@
 (* Stage (1) for the traversal half of C04.  TLC enumerates expression     *)
 (* trees: every node kind as root (with its arities / omitted slice parts  *)
 (* / keyword arguments), plain leaves in the open positions, and one       *)
-(* (thorough: up to two) "items" - any inner node kind with plain leaves,  *)
-(* or a special leaf (zero / typed constants, wildcards, NaN, function     *)
-(* symbol, user node classes, an invalid foreign object) - in one of the   *)
-(* positions; plus hand-picked trees with Python-equal twin subtrees for   *)
-(* the memoising variants.  For every tree it computes the list of         *)
+(* "item" - any inner node kind with plain leaves, or a special leaf (zero *)
+(* / typed constants, wildcards, NaN, function symbol, user node classes,  *)
+(* an invalid foreign object) - in one of the positions (quick: item i in  *)
+(* position i mod arity; thorough: every position); plus hand-picked trees *)
+(* with Python-equal twin subtrees for the memoising variants; tier        *)
+(* "random" (-simulate): up to six items anywhere, nested to any depth.    *)
+(* For every tree it computes the list of                                  *)
 (* traversal configurations to run (mapper family x extra arguments x      *)
 (* visit-answer pattern x renamed leaves) and checks on the model that     *)
 (*   - the occurrence numbering is the preorder,                           *)
@@ -67,10 +69,6 @@ LeafItems == <<
   Wild("Wildcard", ""), Wild("DotWildcard", "w"), Wild("StarWildcard", "w"), FunSym, NaNE,
   ULeaf, UVar(""), V("x") >>
 Items == InnerItems \o LeafItems
-\* second-level items of the thorough tier
-Items2 == << N("Sum", << H, H >>), IfE(H, H, H), CallKw(H, << H >>, << KwArg("k1", H) >>),
-             N("Slice", << NoneE, H >>), CSE(H), Subst(H, << "x" >>, << H >>), N("List", << H >>),
-             KI(0), ULeaf, StrE("s"), N("MV", << H, H >>), B("LShift", H, H) >>
 
 x == V("x")  y == V("y")
 TwinRoots == {
@@ -85,7 +83,7 @@ TwinRoots == {
   CallKw(V("f"), << x >>, << KwArg("k1", x) >>),
   N("Max", << Look(x, "attr"), Look(x, "attr"), Look(x, "other") >>) }
 
-ItemBudget == IF Tier = "quick" THEN 1 ELSE 2
+ItemBudget == IF Tier = "random" THEN 6 ELSE 1
 Init == /\ tree \in Roots \cup TwinRoots
         /\ budget = ItemBudget /\ nh = NHoles(tree) /\ pos = 0 /\ inner = 0
 
@@ -99,13 +97,19 @@ FillWith(s, cost) ==
     /\ IF inner > 0 THEN inner' = inner - 1 + NHoles(s) /\ pos' = pos
        ELSE inner' = NHoles(s) /\ pos' = pos + 1
     /\ UNCHANGED nh
-Next ==
+ExhNext ==
     /\ NHoles(tree) > 0
     /\ \/ FillWith(VAuto, 0)
        \/ /\ budget = ItemBudget /\ inner = 0
           /\ \E i \in 1..Len(Items) : ItemAllowedAt(i, pos + 1) /\ FillWith(Items[i], 1)
-       \/ /\ budget = 1 /\ ItemBudget = 2
-          /\ \E i \in 1..Len(Items2) : FillWith(Items2[i], 1)
+\* -simulate: beyond the exhaustive bounds - up to six items anywhere, nested to any depth;
+\* the draws are made here so that every step of every behaviour draws anew
+RandNext ==
+    /\ NHoles(tree) > 0
+    /\ LET coin == RandomElement(1..5)
+           it == Items[RandomElement(1..Len(Items))]
+       IN IF coin <= 2 /\ budget > 0 /\ NoSameConst(it) THEN FillWith(it, 1) ELSE FillWith(VAuto, 0)
+Next == IF Tier = "random" THEN RandNext ELSE ExhNext
 
 Complete == NHoles(tree) = 0
 
@@ -126,25 +130,32 @@ LastVar(t) == LET is == { j \in 1..Len(Pre(t)) : Pre(t)[j].t \in {"Var", "UVar"}
 WalkFams == {"walk", "cwalk"}
 AllFams == {"walk", "cwalk", "ident", "cident", "comb", "ccomb", "coll", "ccoll", "cbident"}
 
-ConfigSet(t) ==
-    IF Tier = "quick"
-    THEN   { Cfg("walk", AP2, << >>, << >>), Cfg("cwalk", AP2, << >>, << >>),
-             Cfg("ident", AP2, << >>, << >>), Cfg("cident", AP2, << >>, SetToSeq(LastVar(t))),
-             Cfg("coll", AP2, << >>, << >>), Cfg("ccomb", AP2, << >>, << >>),
-             Cfg("cbident", AP2, << >>, << >>) }
-      \cup { Cfg("walk", AP2, << n >>, << >>) : n \in InnerIds(t) \cup (IF Len(Pre(t)) > 1 THEN {2} ELSE {}) }
-      \cup { Cfg("ident", AP2, << >>, SetToSeq(LastVar(t))) }
-      \cup (IF IsPlain(t)
-            THEN { Cfg(f, ap, << >>, << >>) : f \in AllFams, ap \in {AP0, AP1, AP3} }
-                 \cup { Cfg(f, AP2, << >>, << >>) : f \in {"comb", "ccoll"} }
-                 \cup { Cfg(f, AP1, << 1 >>, << >>) : f \in WalkFams }
-                 \cup { Cfg("cbident", AP1, << >>, SetToSeq(LastVar(t))) }
-            ELSE {})
-    ELSE   { Cfg(f, ap, << >>, << >>) : f \in AllFams, ap \in {AP0, AP1, AP2, AP3} }
-      \cup { Cfg(f, AP2, << n >>, << >>) : f \in WalkFams, n \in 1..Len(Pre(t)) }
-      \cup UNION { { Cfg("walk", AP2, << n, m >>, << >>) : m \in { q \in InnerIds(t) : q > n } } : n \in InnerIds(t) }
-      \cup { Cfg(f, AP2, << >>, << nm >>) : f \in {"ident", "cident", "cbident"}, nm \in VarNames(t) }
-      \cup { Cfg(f, AP1, << >>, SetToSeq(VarNames(t))) : f \in {"ident", "cident"} }
+\* the memoising variants differ from the plain ones only through the cache: in the quick tier
+\* they are run where that can matter (twins) and on the shallow trees
+QuickSet(t) ==
+         { Cfg("walk", AP2, << >>, << >>), Cfg("ident", AP2, << >>, << >>),
+           Cfg("coll", AP2, << >>, << >>), Cfg("cbident", AP2, << >>, << >>) }
+    \cup (IF InnerIds(t) = {} \/ HasTwins(t)
+          THEN { Cfg("cwalk", AP2, << >>, << >>), Cfg("cident", AP2, << >>, SetToSeq(LastVar(t))),
+                 Cfg("ccomb", AP2, << >>, << >>) }
+          ELSE { Cfg("cwalk", AP2, << >>, << >>) })
+    \cup { Cfg("walk", AP2, << n >>, << >>) : n \in InnerIds(t) \cup (IF Len(Pre(t)) > 1 THEN {2} ELSE {}) }
+    \cup { Cfg("ident", AP2, << >>, SetToSeq(LastVar(t))) }
+    \cup (IF IsPlain(t)
+          THEN { Cfg(f, ap, << >>, << >>) : f \in AllFams, ap \in {AP0, AP1, AP3} }
+               \cup { Cfg(f, AP2, << >>, << >>) : f \in {"comb", "ccoll"} }
+               \cup { Cfg(f, AP1, << 1 >>, << >>) : f \in WalkFams }
+               \cup { Cfg("cbident", AP1, << >>, SetToSeq(LastVar(t))) }
+          ELSE {})
+MoreSet(t) ==
+         { Cfg("walk", AP2, << n >>, << >>) : n \in 1..Len(Pre(t)) }
+    \cup { Cfg("cwalk", AP1, << n >>, << >>) : n \in InnerIds(t) }
+    \cup UNION { { Cfg("walk", AP1, << n, m >>, << >>) : m \in { q \in InnerIds(t) : q > n } } : n \in InnerIds(t) }
+    \cup { Cfg(f, AP2, << >>, << nm >>) : f \in {"ident", "cbident"}, nm \in VarNames(t) }
+    \cup { Cfg(f, AP1, << >>, SetToSeq(VarNames(t))) : f \in {"ident", "cident"} }
+    \cup { Cfg(f, AP1, << >>, << >>) : f \in {"comb", "ccoll", "coll", "cbident"} }
+    \cup { Cfg(f, AP3, << >>, << >>) : f \in {"walk", "cident"} }
+ConfigSet(t) == IF Tier = "quick" THEN QuickSet(t) ELSE QuickSet(t) \cup MoreSet(t)
 
 \* ------------------------------------------------------------------ checked on the model
 \* (one invariant, so that the numbered tree and its configurations are computed once)
